@@ -1,0 +1,23 @@
+//go:build verif
+
+// Contracts for package respondent (comment-only; read by /verif/govc).
+
+package respondent
+
+//@ struct pipe
+//@   immutable: s p sendQ closeQ
+//@
+//@ struct socket
+//@   lock Mutex level 20
+//@   guarded_by Mutex: closed ttl sendQLen recvQLen sizeQ recvQ contexts
+//@   immutable: defCtx closeQ
+//@
+//@ struct context
+//@   guarded_by s.Mutex: closed recvExpire sendExpire bestEffort recvPipe backtrace
+//@   immutable: s closeQ
+//@
+//@ func NewProtocol
+//@   private
+//@
+//@ func (*context).close
+//@   holds c.s.Mutex
